@@ -17,6 +17,10 @@ func (o *Oracle) onBoot() {
 	o.res.cover(fmt.Sprintf("C14|booted=%v|ref-valid=%v", booted, o.m.DocErr == nil))
 	if !booted {
 		o.res.probe("c14_load_refused")
+		if o.w.LoaderPanic != "" {
+			// "either fails with an error or yields …": a crash of the loader is neither
+			o.violate(nil, "C14.A1-fail-closed", "loading the configuration crashed instead of failing with an error: "+clip(o.w.LoaderPanic, 160), "missing", "loader-panic")
+		}
 		return
 	}
 	res := o.w.Resolved
